@@ -43,9 +43,9 @@ type Replay struct {
 	Journal2 *journalfs.Journal `json:"journal2,omitempty"`
 	P2       int                `json:"p2,omitempty"`
 	Image2   *journalfs.Image   `json:"image2,omitempty"`
-	K       int                `json:"k,omitempty"`
-	Site    string             `json:"site,omitempty"`
-	Step    string             `json:"step,omitempty"`
+	K        int                `json:"k,omitempty"`
+	Site     string             `json:"site,omitempty"`
+	Step     string             `json:"step,omitempty"`
 }
 
 // finding is a violation found by one case.
@@ -386,20 +386,21 @@ func ReplayCrash(c *Ctx, st *Store, rp Replay) {
 type caseResult struct {
 	K       int    `json:"k"`
 	Reached bool   `json:"reached"`
-	Site    string `json:"site,omitempty"`  // failed op class
-	Step    string `json:"step,omitempty"`  // label of the call during which the fault fired
-	Kind    string `json:"kind,omitempty"`  // kind of that call
+	Site    string `json:"site,omitempty"`   // failed op class
+	Step    string `json:"step,omitempty"`   // label of the call during which the fault fired
+	Kind    string `json:"kind,omitempty"`   // kind of that call
 	Result  string `json:"result,omitempty"` // error | panic | nil | not-in-call
-	After   string `json:"after,omitempty"` // what the recovery check after the fault saw
-	Total   int    `json:"total,omitempty"` // fault points seen by this run
+	After   string `json:"after,omitempty"`  // what the recovery check after the fault saw
+	Total   int    `json:"total,omitempty"`  // fault points seen by this run
 	VKey    string `json:"vkey,omitempty"`
 	VDesc   string `json:"vdesc,omitempty"`
 	Hang    bool   `json:"hang,omitempty"`
 }
 
 // errCase runs the workload with exactly fault point #k failing.
-func errCase(st *Store, mode string, k int) (cr caseResult) {
+func errCase(st *Store, mode string, k int) (cr caseResult, teardown func()) {
 	cr.K = k
+	teardown = func() {}
 	var inj *KVInjector
 	if mode == "errkv" {
 		inj = NewKVInjector()
@@ -491,11 +492,15 @@ func errCase(st *Store, mode string, k int) (cr caseResult) {
 	r.fs.Freeze()
 	j := r.fs.Journal()
 	if r.db != nil {
+		// closing a store whose call just failed may itself blow up in one of the
+		// store's goroutines (e.g. Tan's sequentialSaveState returns on the first
+		// error without waiting for the sync goroutines it started): the caller
+		// does this after the result of the case is recorded
 		db := r.db
-		_ = verifkit.Catch(func() { _ = db.Close() })
+		teardown = func() { _ = verifkit.Catch(func() { _ = db.Close() }) }
 	}
 	if cr.VKey != "" || !cr.Reached {
-		return cr
+		return cr, teardown
 	}
 	// the process would now die / be restarted: the store must recover, keep
 	// every acknowledged save and treat the failed call as all-or-nothing
@@ -505,18 +510,13 @@ func errCase(st *Store, mode string, k int) (cr caseResult) {
 	}
 	_, class, f := checkImage(st, r.steps[:len(ms)-1], ms, j, len(j.Ops), journalfs.Image{Kind: "drop"})
 	if f != nil {
-		s := r.steps[len(r.steps)-1]
-		if failedStep >= 0 {
-			s = r.steps[failedStep]
-		}
-		_ = s
 		cr.VKey = f.Key // same oracle as crash mode: crash (restart) in / after the failed call
 		cr.VDesc = fmt.Sprintf("store %s, %s fault #%d (%s) during %s (result %s); restart from the synced state afterwards: %s",
 			st.Name, mode, k, cr.Site, cr.Step, cr.Result, f.Desc)
-		return cr
+		return cr, teardown
 	}
 	cr.After = class
-	return cr
+	return cr, teardown
 }
 
 // childSpec selects the work of one child process.
@@ -559,10 +559,23 @@ func ChildMain(stores []*Store, spec string) {
 	for k := cs.K0; k < cs.K1; k++ {
 		emit(caseResult{K: k, Result: "started"})
 		done := make(chan caseResult, 1)
-		go func(k int) { done <- errCase(st, cs.Mode, k) }(k)
+		var teardown func()
+		go func(k int) {
+			cr, td := errCase(st, cs.Mode, k)
+			teardown = td
+			done <- cr
+		}(k)
 		select {
 		case cr := <-done:
 			emit(cr)
+			tdone := make(chan struct{})
+			go func() { teardown(); close(tdone) }()
+			select {
+			case <-tdone:
+			case <-time.After(20 * time.Second): // a wedged Close after a fault: start over in a fresh process
+				_ = f.Close()
+				os.Exit(4)
+			}
 		case <-time.After(60 * time.Second):
 			emit(caseResult{K: k, Hang: true})
 			_ = f.Close()
@@ -623,10 +636,12 @@ func runChild(c *Ctx, st *Store, mode string, k0, k1 int, tag string) []caseResu
 		if runErr == nil && len(finished) >= k1-k0 {
 			break
 		}
-		if started < 0 || finished[started] {
-			// the child died outside a case: harness problem
+		if started < 0 {
+			// the child died before its first case: harness problem
 			panic(fmt.Sprintf("C10 child for %s/%s [%d,%d) failed outside a case: %v\n%s", st.Name, mode, k0, k1, runErr, tailBuf.String()))
 		}
+		// died after the result of case `started` was recorded (during the
+		// teardown of the broken store): nothing is lost, continue behind it
 		if !finished[started] {
 			t := tailBuf.String()
 			cr := caseResult{K: started, Reached: true, Result: "process-died"}
